@@ -9,6 +9,19 @@ Inductive rerr := EOF | TooLarge | ErrOther.
 Definition rerr_code (e : option rerr) : N :=
   match e with None => 0%N | Some EOF => 1%N | Some TooLarge => 2%N | Some ErrOther => 3%N end.
 
+
+(* ---- Go int64 arithmetic: two's complement wrap ---- *)
+Definition two63 : Z := 9223372036854775808.
+Definition max_int64 : Z := two63 - 1.
+Definition wrap64 (z : Z) : Z := (z + two63) mod (2 * two63) - two63.
+
+(* outcome of a Go call that may panic, or hand a NEGATIVE byte count back to its caller *)
+Inductive r64 (T : Type) : Type := R_ok (x : T) | R_panic | R_neg (n : Z).
+Arguments R_ok {T} x.
+Arguments R_panic {T}.
+Arguments R_neg {T} n.
+Definition r64_code {T} (r : r64 T) : N := match r with R_ok _ => 0%N | R_panic => 1%N | R_neg _ => 2%N end.
+
 Section Reader.
 Context {A : Type}.
 
@@ -17,6 +30,7 @@ Context {A : Type}.
 Record ureader := { u_data : list A; u_script : list nat; u_eof_with_data : bool }.
 
 Definition u_read (u : ureader) (m : nat) : list A * option rerr * ureader :=
+  match m with O => ([], None, u) | _ =>
   match u_data u with
   | [] => ([], Some EOF, u)
   | _ =>
@@ -25,7 +39,7 @@ Definition u_read (u : ureader) (m : nat) : list A * option rerr * ureader :=
     let rest := skipn cap (u_data u) in
     let e := match rest with [] => if u_eof_with_data u then Some EOF else None | _ => None end in
     (d, e, {| u_data := rest; u_script := tl (u_script u); u_eof_with_data := u_eof_with_data u |})
-  end.
+  end end.
 
 (* maxBytesReader{r, n, err} *)
 Record mbr := { m_n : Z; m_err : option rerr; m_u : ureader }.
@@ -62,6 +76,48 @@ Fixpoint read_all (s : mbr) (bufs : list nat) : list A * option rerr * mbr :=
 Definition mbr_init (limit : Z) (body : list A) (script : list nat) (eofd : bool) : mbr :=
   {| m_n := limit; m_err := None;
      m_u := {| u_data := body; u_script := script; u_eof_with_data := eofd |} |}.
+
+(* maxBytesReader.Read with the arithmetic Go performs: l.n+1 and l.n-n are int64 operations
+   that wrap, p[:l.n+1] panics for a negative bound, and `n = int(l.n)` is returned as is
+   (a negative count when l.n < 0). *)
+Definition mbr_read64 (s : mbr) (m : nat) : r64 (list A * option rerr * mbr) :=
+  match m_err s with
+  | Some e => R_ok ([], Some e, s)
+  | None =>
+    match m with
+    | O => R_ok ([], None, s)
+    | _ =>
+      let n1 := wrap64 (m_n s + 1) in
+      if (Z.of_nat m >? n1) && (n1 <? 0) then R_panic else
+      let m' := if Z.of_nat m >? n1 then Z.to_nat n1 else m in
+      let '(d, e, u') := u_read (m_u s) m' in
+      let k := Z.of_nat (length d) in
+      if k <=? m_n s
+      then R_ok (d, e, {| m_n := wrap64 (m_n s - k); m_err := e; m_u := u' |})
+      else if m_n s <? 0 then R_neg (m_n s)
+      else R_ok (firstn (Z.to_nat (m_n s)) d, Some TooLarge,
+                 {| m_n := 0; m_err := Some TooLarge; m_u := u' |})
+    end
+  end.
+
+Fixpoint read_all64 (s : mbr) (bufs : list nat) : r64 (list A * option rerr * mbr) :=
+  match bufs with
+  | [] => R_ok ([], None, s)
+  | m :: r =>
+    match mbr_read64 s m with
+    | R_ok (d, e, s') =>
+      match e with
+      | Some x => R_ok (d, Some x, s')
+      | None => match read_all64 s' r with
+                | R_ok (d2, e2, s2) => R_ok (d ++ d2, e2, s2)
+                | R_panic => R_panic
+                | R_neg n => R_neg n
+                end
+      end
+    | R_panic => R_panic
+    | R_neg n => R_neg n
+    end
+  end.
 
 End Reader.
 
@@ -128,13 +184,216 @@ Definition merge_timeout_plain_min (dflt : Z) (group : list (bool * Z)) : Z :=
   | v :: vs => fold_left Z.min vs v
   end.
 
+
+(* ---- the same reader at the level of byte COUNTS: the underlying reader is a script of
+   (claimed count, error) answers that ignores the buffer it is given, so that limits near
+   2^63 can be reached without that many bytes.  The caller keeps reading after errors. ---- *)
+Record cst := { c_n : Z; c_err : option rerr }.
+Definition answer := (Z * option rerr)%type.
+
+Definition cnt_read (s : cst) (m : Z) (answers : list answer)
+  : r64 (Z * option rerr * cst * list answer) :=
+  match c_err s with
+  | Some e => R_ok (0, Some e, s, answers)
+  | None =>
+    if m =? 0 then R_ok (0, None, s, answers) else
+    let n1 := wrap64 (c_n s + 1) in
+    if (m >? n1) && (n1 <? 0) then R_panic else
+    let '(c, e, rest) := match answers with [] => (0, Some EOF, []) | (c, e) :: r => (c, e, r) end in
+    if c <=? c_n s
+    then R_ok (c, e, {| c_n := wrap64 (c_n s - c); c_err := e |}, rest)
+    else R_ok (c_n s, Some TooLarge, {| c_n := 0; c_err := Some TooLarge |}, rest)
+  end.
+
+Fixpoint cnt_run (s : cst) (bufs : list Z) (answers : list answer)
+  : r64 (list answer * cst * list answer) :=
+  match bufs with
+  | [] => R_ok ([], s, answers)
+  | m :: r =>
+    match cnt_read s m answers with
+    | R_ok (c, e, s', rest) =>
+      match cnt_run s' r rest with
+      | R_ok (outs, s2, rest2) => R_ok ((c, e) :: outs, s2, rest2)
+      | R_panic => R_panic
+      | R_neg n => R_neg n
+      end
+    | R_panic => R_panic
+    | R_neg n => R_neg n
+    end
+  end.
+
+Definition cnt_init (limit : Z) : cst := {| c_n := limit; c_err := None |}.
+Definition zsum (l : list Z) : Z := fold_right Z.add 0 l.
+
+(* ---- limits/setup.go: parseSize and the `size < 1` acceptance test ---- *)
+Definition is_digit (c : N) : bool := ((48 <=? c) && (c <=? 57))%N.
+(* strings.ToUpper on ASCII (non-ASCII input never parses: see level note) *)
+Definition upper_b (c : N) : N := (if (97 <=? c) && (c <=? 122) then c - 32 else c)%N.
+Definition digit_val (c : N) : Z := Z.of_N c - 48.
+Fixpoint digits_val (ds : bytes) (acc : Z) : option Z :=
+  match ds with
+  | [] => Some acc
+  | c :: r => if is_digit c then digits_val r (acc * 10 + digit_val c) else None
+  end.
+(* strconv.ParseInt(s, 10, 64): optional sign, at least one digit, digits only, range checked *)
+Definition parse_int64 (s : bytes) : option Z :=
+  match s with
+  | [] => None
+  | c :: r =>
+    let '(neg, ds) := if (c =? 43)%N then (false, r) else if (c =? 45)%N then (true, r) else (false, s) in
+    match ds with
+    | [] => None
+    | _ => match digits_val ds 0 with
+           | None => None
+           | Some u => if neg then (if u <=? two63 then Some (- u) else None)
+                       else (if u <? two63 then Some u else None)
+           end
+    end
+  end.
+Definition has_suffix (s suf : bytes) : bool :=
+  Nat.leb (length suf) (length s) && beq (skipn (length s - length suf) s) suf.
+Definition units : list (bytes * Z) :=
+  [(bs "KB"%string, 1024); (bs "MB"%string, 1048576); (bs "GB"%string, 1073741824); (bs "B"%string, 1); ([], 1)].
+Fixpoint parse_size_units (s : bytes) (us : list (bytes * Z)) : Z :=
+  match us with
+  | [] => -1
+  | (sym, mult) :: r =>
+    if has_suffix s sym
+    then match parse_int64 (firstn (length s - length sym) s) with
+         | None => -1
+         | Some n => wrap64 (n * mult)          (* size * unit.multiplier: int64 product *)
+         end
+    else parse_size_units s r
+  end.
+Definition parse_size (s : bytes) : Z := parse_size_units (map upper_b s) units.
+(* parseLimits/parseArguments: `if size < 1 { error }` *)
+Definition accept_size (s : bytes) : option Z :=
+  let v := parse_size s in if v <? 1 then None else Some v.
+
+(* what the string denotes, read off independently of parseSize (left to right: sign, digit
+   run, unit symbol) — used by the executable spec and by the theorems *)
+Fixpoint span_digits (s : bytes) : bytes * bytes :=
+  match s with
+  | c :: r => if is_digit c then let '(d, t) := span_digits r in (c :: d, t) else ([], s)
+  | [] => ([], [])
+  end.
+Definition dec (ds : bytes) : Z := fold_left (fun a c => a * 10 + digit_val c) ds 0.
+Definition unit_of (sym : bytes) : option Z :=
+  match find (fun u => beq (fst u) sym) units with Some u => Some (snd u) | None => None end.
+Definition denote (s : bytes) : option (Z * Z) :=
+  let u := map upper_b s in
+  let '(neg, r) := match u with
+                   | c :: r => if (c =? 43)%N then (false, r) else if (c =? 45)%N then (true, r) else (false, u)
+                   | [] => (false, [])
+                   end in
+  let '(ds, sym) := span_digits r in
+  match ds with
+  | [] => None
+  | _ => match unit_of sym with
+         | Some mult => Some (if neg then - dec ds else dec ds, mult)
+         | None => None
+         end
+  end.
+
+(* the limits directive: `limits SIZE` sets both the header limit and the "/" body limit;
+   in the block form `header SIZE` and `body [PATH] SIZE` set one each *)
+Definition limits_form_result (form : N) (s : bytes) : option (option Z * option Z) :=
+  match accept_size s with
+  | None => None                                   (* setup error *)
+  | Some v => Some (match form with
+                    | 0%N => (Some v, Some v)      (* limits SIZE : (header, body) *)
+                    | 1%N => (Some v, None)        (* header SIZE *)
+                    | _ => (None, Some v)          (* body [PATH] SIZE *)
+                    end)
+  end.
+
+(* ---- client-visible status of the handlers that read the body ---- *)
+Inductive consumer := ProxyStream | ProxyBuffered | Fastcgi.
+(* what the body's consumer makes of the error its reads ended with: proxy.ServeHTTP compares the
+   RoundTrip error with ErrMaxBytesExceeded by identity (==): net/http hands the body error back
+   unchanged for a chunked upload, but wrapped in a *net.OpError ("readfrom") when the request has
+   a Content-Length; with several upstreams and try_duration the body is buffered first and any
+   read error answers 400; fastcgi's client ignores the error of io.Copy(stdin, body) and relays
+   whatever the responder says (200 here) *)
+Definition consumer_status (k : consumer) (cl_framed : bool) (e : option rerr) (backend_status : Z) : Z :=
+  match e with
+  | Some TooLarge =>
+    match k with
+    | ProxyStream => if cl_framed then 502 else 413
+    | ProxyBuffered => 400
+    | Fastcgi => backend_status
+    end
+  | _ => backend_status
+  end.
+(* the consumer reads the body to the end (or the first error) with some buffer sizes *)
+Definition consumer_reads (limit : Z) (body : list N) (script : list nat) (eofd : bool) (bufs : list nat)
+  : list N * option rerr :=
+  let '(d, e, _) := read_all (mbr_init limit body script eofd) bufs in (d, e).
+
+(* ---- the listener's http.Server as NewServer builds it from the whole site group ---- *)
+Definition tv := (bool * Z)%type.                    (* (XxxTimeoutSet, XxxTimeout) *)
+Record site := { s_read : tv; s_rhdr : tv; s_write : tv; s_idle : tv; s_maxhdr : Z }.
+Record server := { sv_read : Z; sv_rhdr : Z; sv_write : Z; sv_idle : Z; sv_maxhdr : Z }.
+
+(* stricterTimeout(a, b) of /repo d123c3c *)
+Definition stricter_timeout (a b : Z) : bool := if a =? 0 then false else (b =? 0) || (a <? b).
+Definition tstep (acc c : tv) : tv :=
+  if fst c && (negb (fst acc) || stricter_timeout (snd c) (snd acc)) then (true, snd c) else acc.
+(* loop body of makeHTTPServerWithTimeouts: one pass over the sites, four accumulators *)
+Record tacc := { a_read : tv; a_rhdr : tv; a_write : tv; a_idle : tv }.
+Definition tacc_step (a : tacc) (c : site) : tacc :=
+  {| a_read := tstep (a_read a) (s_read c); a_rhdr := tstep (a_rhdr a) (s_rhdr c);
+     a_write := tstep (a_write a) (s_write c); a_idle := tstep (a_idle a) (s_idle c) |}.
+Definition tacc0 : tacc := {| a_read := (false, 0); a_rhdr := (false, 0); a_write := (false, 0); a_idle := (false, 0) |}.
+Definition or_default (a : tv) (dflt : Z) : Z := if fst a then snd a else dflt.
+(* loop body of makeHTTPServerWithHeaderLimit *)
+Definition hstep (min limit : Z) : Z :=
+  if limit =? 0 then min else
+  let min1 := if min =? 0 then limit else min in
+  if limit <? min1 then limit else min1.
+Definition header_loop (group : list Z) : Z :=
+  let m := fold_left hstep group 0 in if 0 <? m then m else 0.
+Definition new_server (dflt : server) (group : list site) : server :=
+  let a := fold_left tacc_step group tacc0 in
+  {| sv_read := or_default (a_read a) (sv_read dflt); sv_rhdr := or_default (a_rhdr a) (sv_rhdr dflt);
+     sv_write := or_default (a_write a) (sv_write dflt); sv_idle := or_default (a_idle a) (sv_idle dflt);
+     sv_maxhdr := header_loop (map s_maxhdr group) |}.
+
+(* "never relaxed": the listener value v honours a site's own request x (0 = the site asks nothing) *)
+Definition honours (v x : Z) : bool := (x =? 0) || ((0 <? v) && (v <=? x)).
+Definition site_honoured (sv : server) (c : site) : bool :=
+  (negb (fst (s_read c)) || honours (sv_read sv) (snd (s_read c))) &&
+  (negb (fst (s_rhdr c)) || honours (sv_rhdr sv) (snd (s_rhdr c))) &&
+  (negb (fst (s_write c)) || honours (sv_write sv) (snd (s_write c))) &&
+  (negb (fst (s_idle c)) || honours (sv_idle sv) (snd (s_idle c))) &&
+  honours (sv_maxhdr sv) (s_maxhdr c).
+
 (* ---- case type for the correspondence check ---- *)
 Inductive case :=
 | CRead (cs : bool) (table : list (bytes * Z)) (path : bytes) (bodylen : nat) (script : list nat)
         (eofd : bool) (bufs : list nat) (obs_data : bytes) (obs_err : N)
 | CTimeout (dflt : Z) (group : list (bool * Z)) (obs : Z)
 | CHeader (group : list Z) (obs : Z)
-| CStatus (over : bool) (obs : Z).
+| CStatus (over : bool) (obs : Z)
+(* limits.MaxBytesReader called directly with ANY int64 limit; obs_code 0 = returned, 1 = panic,
+   2 = negative count handed to the caller *)
+| CRead64 (limit : Z) (bodylen : nat) (script : list nat) (eofd : bool) (bufs : list nat)
+          (obs_code : N) (obs_data : bytes) (obs_err : N) (obs_neg : Z)
+(* the same over a reader that only CLAIMS counts; the caller reads on after errors *)
+| CCount (limit : Z) (bufs : list Z) (answers : list (Z * N)) (obs_code : N) (obs : list (Z * N))
+         (obs_consumed : nat)
+(* the limits directive on a size string; form 0 = `limits S`, 1 = `header S`, 2 = `body [P] S` *)
+| CParse (form : N) (s : bytes) (obs_ok : bool) (obs_hdr obs_body : Z)
+(* a real site (limits + proxy / fastcgi) over loopback: an upload followed by a pipelined GET;
+   kind 0 = proxy, 1 = proxy that buffers (two upstreams + try_duration), 2 = fastcgi;
+   obs_backend = bytes that reached the backend (-1: never contacted), followup = status of the
+   pipelined request (-2: connection closed first) *)
+| CSite (kind : N) (chunked : bool) (limit : Z) (bodylen : nat) (obs_status obs_backend : Z)
+        (prefix_ok : bool) (followup : Z)
+(* NewServer on a whole site group (hand-built configs, or parsed from a Casketfile and started) *)
+| CListener (dflt : server) (group : list site) (obs : server)
+(* a request whose header block has the given size against the merged header limit *)
+| CHdr431 (maxhdr reqbytes obs_status : Z).
 
 Definition body_of (n : nat) : list N := map (fun i => N.of_nat (i mod 251)) (seq 0 n).
 
@@ -174,6 +433,105 @@ Definition judge (c : case) : N :=
       let spec := if forallb (Z.eqb 0) group then obs =? 0
                   else existsb (Z.eqb obs) group && (0 <? obs) && forallb (stricter_or_eq obs) group in
       verdict (merge_header_limit group =? obs) spec
+  | CRead64 limit bodylen script eofd bufs oc od oe on =>
+      let body := body_of bodylen in
+      let r := read_all64 (mbr_init limit body script eofd) bufs in
+      let agree := match r with
+                   | R_ok (d, e, _) => (oc =? 0)%N && beq d od && (rerr_code e =? oe)%N
+                   | R_panic => (oc =? 1)%N
+                   | R_neg n => (oc =? 2)%N && (n =? on)
+                   end in
+      (* every limit the directive can configure (1..2^63-1) must be enforced exactly *)
+      let spec := if (1 <=? limit) && (limit <=? max_int64)
+                  then (oc =? 0)%N && beq od (firstn (length od) body) && (Z.of_nat (length od) <=? limit) &&
+                       (if (oe =? 1)%N then (Z.of_nat bodylen <=? limit) && (length od =? bodylen)%nat else true) &&
+                       (if (oe =? 2)%N then (limit <? Z.of_nat bodylen) && (Z.of_nat (length od) =? limit) else true) &&
+                       negb (oe =? 3)%N
+                  else true in
+      verdict agree spec
+  | CCount limit bufs answers oc obs ocons =>
+      let dec_err (c : N) : option rerr :=
+        match c with 0%N => None | 1%N => Some EOF | 2%N => Some TooLarge | _ => Some ErrOther end in
+      let ans := map (fun a => (fst a, dec_err (snd a))) answers in
+      let r := cnt_run (cnt_init limit) bufs ans in
+      let agree := match r with
+                   | R_ok (outs, _, rest) =>
+                       (oc =? 0)%N &&
+                       list_beq (fun a b : Z * N => (fst a =? fst b) && (snd a =? snd b)%N)
+                                (map (fun o : answer => (fst o, rerr_code (snd o))) outs) obs &&
+                       (length answers - length rest =? ocons)%nat
+                   | R_panic => (oc =? 1)%N
+                   | R_neg _ => false
+                   end in
+      let claimed := zsum (map fst (firstn ocons answers)) in
+      let total := zsum (map fst obs) in
+      let fix sticky (l : list (Z * N)) : bool :=
+        match l with
+        | (_, e) :: r => if (e =? 0)%N then sticky r
+                         else forallb (fun o => (fst o =? 0) && (snd o =? e)%N) r
+        | [] => true
+        end in
+      let spec := if (1 <=? limit) && (limit <=? max_int64)
+                  then (oc =? 0)%N && forallb (fun o => 0 <=? fst o) obs &&
+                       (total =? Z.min limit claimed) &&
+                       Bool.eqb (existsb (fun o => (snd o =? 2)%N) obs) (limit <? claimed) &&
+                       sticky obs
+                  else true in
+      verdict agree spec
+  | CParse form s ok oh ob =>
+      let enc (o : option Z) : Z := match o with Some v => v | None => 0 end in
+      let agree := match limits_form_result form s with
+                   | None => negb ok
+                   | Some (h, b) => ok && (enc h =? oh) && (enc b =? ob)
+                   end in
+      (* independent reading of the string: accepted iff it denotes number*unit within 1..2^63-1,
+         and then the configured value is exactly that product *)
+      let spec := match denote s with
+                  | None => negb ok
+                  | Some (n, u) =>
+                      let v := n * u in
+                      if (1 <=? v) && (v <=? max_int64)
+                      then ok && (match form with 0%N => (oh =? v) && (ob =? v)
+                                             | 1%N => (oh =? v) && (ob =? 0)
+                                             | _ => (oh =? 0) && (ob =? v) end)
+                      else negb ok
+                  end in
+      verdict agree spec
+  | CSite kind chunked limit bodylen ost obk pfx fu =>
+      let k := match kind with 0%N => ProxyStream | 1%N => ProxyBuffered | _ => Fastcgi end in
+      let over := limit <? Z.of_nat bodylen in
+      let e := if over then Some TooLarge else Some EOF in
+      let m_status := consumer_status k (negb chunked) e 200 in
+      let m_backend := if over && (kind =? 1)%N then -1 else Z.min (Z.of_nat bodylen) limit in
+      (* net/http drains up to 256 KiB of an unread body to keep the connection, else closes it *)
+      let leftover := Z.of_nat bodylen - limit in
+      let fu_ok := if leftover <=? 200000 then fu =? 204
+                   else if 300000 <=? leftover then fu =? -2 else (fu =? 204) || (fu =? -2) in
+      let agree := (m_status =? ost) && (m_backend =? obk) && fu_ok in
+      let spec := pfx && (obk <=? limit) && ((fu =? 204) || (fu =? -2)) &&
+                  (if over then ost =? 413 else (ost =? 200) && (obk =? Z.of_nat bodylen) && (fu =? 204)) in
+      verdict agree spec
+  | CListener dflt group obs =>
+      let m := new_server dflt group in
+      let agree := (sv_read m =? sv_read obs) && (sv_rhdr m =? sv_rhdr obs) && (sv_write m =? sv_write obs) &&
+                   (sv_idle m =? sv_idle obs) && (sv_maxhdr m =? sv_maxhdr obs) in
+      let field_ok (f : site -> tv) (d o : Z) : bool :=
+        match set_values (map f group) with
+        | [] => o =? d
+        | vs => existsb (Z.eqb o) vs && forallb (stricter_or_eq o) vs
+        end in
+      let hs := map s_maxhdr group in
+      let spec := field_ok s_read (sv_read dflt) (sv_read obs) && field_ok s_rhdr (sv_rhdr dflt) (sv_rhdr obs) &&
+                  field_ok s_write (sv_write dflt) (sv_write obs) && field_ok s_idle (sv_idle dflt) (sv_idle obs) &&
+                  (if forallb (Z.eqb 0) hs then sv_maxhdr obs =? 0
+                   else existsb (Z.eqb (sv_maxhdr obs)) hs && (0 <? sv_maxhdr obs) &&
+                        forallb (stricter_or_eq (sv_maxhdr obs)) hs) &&
+                  forallb (site_honoured obs) group in
+      verdict agree spec
+  | CHdr431 maxhdr reqbytes ost =>
+      (* net/http: initial read limit = MaxHeaderBytes + 4096; beyond it the answer is 431 *)
+      let m := if maxhdr + 4096 <? reqbytes then 431 else 200 in
+      verdict (m =? ost) (if maxhdr + 4096 <? reqbytes then ost =? 431 else ost =? 200)
   | CStatus over obs =>
       (* a proxied upload: over the limit => the body reader fails with TooLarge => 413;
          within the limit => the proxy relays the backend response itself and returns 0 *)
